@@ -158,6 +158,9 @@ TrDvWalk ==
          /\ nbad' = nbad + Report("dvwalk-built", badOf("built") \cup IfBad(Ev.err # "", <<"err", "dv", Ev.err>>))
                           + Report("dvwalk-merged", badOf("merged"))
 
+\* informational records of the harness (pool residue, garbage collection): no specification step
+TrNote == IsEv("note") /\ UNCHANGED <<segs, files, lcm>> /\ Step("note", {})
+
 TrClose ==
   /\ IsEv("close")
   /\ Close(Ev.sid)
@@ -165,7 +168,7 @@ TrClose ==
 
 TrEnd == l = Len(Trace) + 1 /\ l' = l + 1 /\ PrintT(<<"ACCEPTED", Len(Trace), nbad>>) /\ UNCHANGED <<segs, files, lcm, nbad>>
 
-TraceNext == TrDvWalk \/ TrReset \/ TrBuild \/ TrBuildFail \/ TrPersist \/ TrOpen \/ TrMerge \/ TrClose \/ TrEnd
+TraceNext == TrNote \/ TrDvWalk \/ TrReset \/ TrBuild \/ TrBuildFail \/ TrPersist \/ TrOpen \/ TrMerge \/ TrClose \/ TrEnd
 
 TraceSpec == TraceInit /\ [][TraceNext]_traceVars
 
